@@ -681,7 +681,7 @@ pub fn api_harness(spec: &RunSpec) -> RunOutput {
             w.stats.step_cap_hit = true;
             w.violate(Violation::new(
                 "liveness.no-quiescence",
-                &[Prop::C06, Prop::C15, Prop::C19],
+                &[Prop::C06, Prop::C15, Prop::C19, Prop::C05],
                 format!("no quiescence within {max_steps} steps"),
             ));
             break;
